@@ -194,6 +194,46 @@ theorem filter_sound {cands : List Pkg} {dq : List Nat} {version : Text} {dep : 
           · next a ha =>
             exact ⟨a, by simpa [List.isEmpty_iff] using hne, ha, h3⟩
 
+/-- the filter is `List.filter` by a test that does not mention the offered list -/
+theorem filter_is_filter (dq : List Nat) (version : Text) (dep : Dep) (allowPin preferPin : Text)
+    (installed : Option Pkg) :
+    ∃ f : Pkg → Bool, ∀ cands : List Pkg,
+      filterPackages cands dq version dep allowPin preferPin installed = cands.filter f := by
+  unfold filterPackages
+  simp only
+  by_cases hd : dep = .any
+  · simp only [hd, if_true]
+    exact ⟨_, fun _ => rfl⟩
+  · simp only [hd, if_false]
+    cases pv version with
+    | none => exact ⟨fun _ => false, fun c => by simp⟩
+    | some req =>
+      simp only [List.filter_filter]
+      exact ⟨_, fun _ => rfl⟩
+
+/-- T `filter_local`: the verdict on a candidate depends on that candidate alone — never on which other
+candidates are offered, nor on their order; the filter is the order-preserving restriction to the
+candidates accepted one at a time (a memo across candidates keyed by less than the whole candidate breaks
+exactly this; the `r.one` steps of corr:resolver check Go's `ResolvePackage` against `acceptsOne`) -/
+theorem filter_local (cands : List Pkg) (dq : List Nat) (version : Text) (dep : Dep)
+    (allowPin preferPin : Text) (installed : Option Pkg) :
+    filterPackages cands dq version dep allowPin preferPin installed =
+      cands.filter (acceptsOne dq version dep allowPin preferPin installed) := by
+  obtain ⟨f, hf⟩ := filter_is_filter dq version dep allowPin preferPin installed
+  rw [hf]
+  apply List.filter_congr
+  intro p _
+  unfold acceptsOne
+  rw [hf]
+  cases h : f p <;> simp [List.filter_cons, h]
+
+/-- corollary: permuting the offered candidates permutes the accepted ones -/
+theorem filter_perm {l₁ l₂ : List Pkg} (h : l₁.Perm l₂) (dq : List Nat) (version : Text) (dep : Dep)
+    (allowPin preferPin : Text) (installed : Option Pkg) :
+    (filterPackages l₁ dq version dep allowPin preferPin installed).Perm
+      (filterPackages l₂ dq version dep allowPin preferPin installed) := by
+  rw [filter_local, filter_local]; exact h.filter _
+
 /-! ## best candidate -/
 
 /-- tie: `bestPackage` is `slices.MinFunc` (first minimum), which `minFunc` models -/
